@@ -14,6 +14,18 @@ COMMON_ASSUMPTIONS = [
 MIX = "small:60,positions:40,gc-heavy:12,big:6,many-queues:6,names:6,wrap:6,batch:12"
 MC_QM = dict(name="MC_QueueMap", module="QueueMapMC.tla", cfg="MC_QueueMap.cfg", cfg_thorough="MC_QueueMap_thorough.cfg",
              expect_actions=["QNext"])
+WAL_STEPS = ["CallBegin", "StepEntry", "StepWrite", "StepFlush", "StepFsync", "StepDirSync", "StepCreate", "StepSetLen",
+             "StepUnlink", "StepMem", "StepPromise", "StepReturn", "Open"]
+MC_CLEAN = dict(name="MC_Clean", module="MC_Wal.tla", cfg="MC_Clean_quick.cfg", cfg_thorough="MC_Clean.cfg",
+                expect_actions=WAL_STEPS + ["Restart"], timeout=3000)
+MC_CRASH = dict(name="MC_Crash", module="MC_Wal.tla", cfg="MC_Crash_quick.cfg", cfg_thorough="MC_Crash.cfg",
+                expect_actions=WAL_STEPS + ["CrashProcess"], expect_actions_thorough=WAL_STEPS + ["CrashProcess", "StepOpenNext"],
+                timeout=7000)
+MC_POLICY = dict(name="MC_Policy", module="MC_Wal.tla", cfg="MC_Policy_quick.cfg", cfg_thorough="MC_Policy.cfg",
+                 expect_actions=WAL_STEPS + ["CrashProcess", "CrashPower"], timeout=7000)
+MC_POLICY_FSYNC = dict(name="MC_Policy_fsync", module="MC_Wal.tla", cfg="MC_Policy_fsync_quick.cfg",
+                       cfg_thorough="MC_Policy_fsync.cfg", expect_actions=WAL_STEPS + ["CrashProcess", "CrashPower"], timeout=7000)
+MC_READER = dict(name="MC_Reader", module="Reader.tla", cfg="MC_Reader.cfg", expect_actions=["ReadFrame", "Header", "IntoWriter"])
 MC_FRAMES = dict(name="MC_Frames", module="MC_Frames.tla", cfg="MC_Frames_quick.cfg", cfg_thorough="MC_Frames_tiny.cfg")
 MC_FRAMES_REAL = dict(name="MC_Frames_real", module="MC_Frames.tla", cfg="MC_Frames_real.cfg")
 
@@ -21,7 +33,7 @@ RECIPES = {
     "C05": dict(
         level="model_checking",
         monitors={"C05"},
-        mc=[MC_QM],
+        mc=[MC_QM, MC_CLEAN],
         runs=[dict(cmd="run", gen=MIX, policy="always_flush")],
         rule="every call of every script: result and full observable state (queue set, records, next, last_position, "
              "last_record, summary, 4 range probes) compared with QueueMap by TLC; non-trivial = calls executed",
@@ -30,7 +42,7 @@ RECIPES = {
     "C01": dict(
         level="model_checking",
         monitors={"C01"},
-        mc=[MC_QM],
+        mc=[MC_QM, MC_CLEAN],
         runs=[dict(cmd="run", gen="restarts:120,gc-heavy:20,big:8,many-queues:8,names:8,aim-gc:60,aim-roll:30,aim-block:20,aim-batch:10", policy="always_flush"),
               dict(cmd="run", gen="restarts:30,gc-heavy:6", policy="do_nothing,always_fsync,on_delay_long_flush")],
         rule="state after every Drop+open compared with QueueMap's state before it; non-trivial = restarts executed",
@@ -39,7 +51,7 @@ RECIPES = {
     "C04": dict(
         level="model_checking",
         monitors={"C04"},
-        mc=[MC_QM],
+        mc=[MC_QM, MC_CLEAN],
         runs=[dict(cmd="run", gen="idle:60,gc-heavy:20,positions:30,aim-gc:80", policy="always_flush"),
               dict(cmd="run", gen="idle:16,gc-heavy:6,aim-gc:16", policy="always_flush",
                    opts={"crash": "process", "tears": "aimed", "cont": True, "max-points": "400"})],
@@ -61,7 +73,7 @@ RECIPES = {
     "C14": dict(
         level="model_checking",
         monitors={"C14"},
-        mc=[MC_QM],
+        mc=[MC_QM, MC_POLICY_FSYNC],
         runs=[dict(cmd="run", gen="small:40,positions:20,gc-heavy:8,restarts:20,batch:8,aim-roll:24,aim-gc:16",
                    policy="always_flush,do_nothing,always_fsync,on_delay_0_flush,on_delay_0_fsync,on_delay_long_flush,on_delay_long_fsync",
                    opts={"c14": True})],
@@ -72,7 +84,7 @@ RECIPES = {
     "C15": dict(
         level="model_checking",
         monitors={"C15"},
-        mc=[MC_FRAMES, MC_FRAMES_REAL],
+        mc=[MC_FRAMES, MC_FRAMES_REAL, MC_CLEAN],
         runs=[dict(cmd="run", gen="boundary:80,gc-heavy:20,big:10,small:30,aim-block:60,aim-gc:20,aim-roll:20", policy="always_flush"),
               dict(cmd="run", gen="boundary:20,gc-heavy:8", policy="do_nothing")],
         rule="every mutating call: reported wal_bytes_written = bytes of its buffered writes = advance of the writer "
@@ -91,7 +103,7 @@ RECIPES = {
     "C06": dict(
         level="model_checking",
         monitors={"C06"},
-        mc=[MC_QM],
+        mc=[MC_CLEAN],
         runs=[dict(cmd="run", gen="gc-heavy:40,many-queues:12,big:10,restarts:20,aim-roll:80,aim-gc:40", policy="always_flush"),
               dict(cmd="run", gen="gc-heavy:10", policy="do_nothing,always_fsync")],
         rule="after every truncate / delete / open of crash-free scripts: real readdir is a contiguous run ending at "
@@ -100,9 +112,9 @@ RECIPES = {
         nontrivial_stat="gc_calls",
     ),
     "C02": dict(
-        level="fault_enumeration",
+        level="model_checking",
         monitors={"C02"},
-        mc=[],
+        mc=[MC_CRASH],
         runs=[dict(cmd="run", gen="small:24,gc-heavy:8,batch:8,big:3,restarts:6,aim-gc:8,aim-roll:6,aim-batch:4,aim-block:4", policy="always_flush",
                    opts={"crash": "process", "tears": "aimed", "cont": True, "depth2": True, "max-points": "600"},
                    opts_thorough={"crash": "process", "tears": "all", "cont": True, "depth2": True, "max-points": "6000"},
@@ -116,9 +128,9 @@ RECIPES = {
         nontrivial_stat="crash_incall_points",
     ),
     "C03": dict(
-        level="fault_enumeration",
+        level="model_checking",
         monitors={"C03"},
-        mc=[],
+        mc=[MC_POLICY, MC_POLICY_FSYNC],
         runs=[dict(cmd="run", gen="small:16,gc-heavy:6,persist:16,big:2",
                    policy="do_nothing,on_delay_long_fsync,always_flush,always_fsync",
                    opts={"crash": "both", "tears": "aimed", "cont": True, "max-points": "300"},
@@ -130,9 +142,9 @@ RECIPES = {
         nontrivial_stat="crash_opens",
     ),
     "C12": dict(
-        level="fault_enumeration",
+        level="model_checking",
         monitors={"C12"},
-        mc=[],
+        mc=[MC_CRASH],
         runs=[dict(cmd="run", gen="batch:30,big:4,aim-batch:10", policy="always_flush",
                    opts={"crash": "process", "tears": "aimed", "cont": True, "max-points": "800"},
                    opts_thorough={"crash": "process", "tears": "all", "cont": True, "max-points": "8000"},
@@ -174,7 +186,7 @@ RECIPES = {
     "C10": dict(
         level="exploration",
         monitors={"C10"},
-        mc=[],
+        mc=[MC_READER],
         runs=[dict(cmd="damage", gen="small:16,batch:6,gc-heavy:6,big:3,names:2", policy="always_flush",
                    opts={"classes": "payload,crc,hdr,noise,struct", "noise": "200", "struct": "200"},
                    opts_thorough={"classes": "payload,crc,hdr,noise,struct", "noise": "2000", "struct": "2000", "thorough": True},
@@ -186,9 +198,9 @@ RECIPES = {
         nontrivial_stat="damage_cases",
     ),
     "C11": dict(
-        level="fault_enumeration",
+        level="model_checking",
         monitors={"C11"},
-        mc=[],
+        mc=[MC_READER],
         runs=[dict(cmd="fault", gen="small:16,gc-heavy:10,big:4,many-queues:3,aim-gc:6", policy="always_flush",
                    opts={}, opts_thorough={"all-kinds": True}, thorough_factor=6)],
         rule="closed images spanning 1-4 WAL files x every listing / open / read / seek call recovery makes on them (counted "
